@@ -4,6 +4,26 @@ COMMON_NOTE = ("Trusted base: the simulator (sim/), the hook placement (every AB
                "Sampling, not enumeration.")
 TECH = "deterministic simulation with fault injection: seeded search over schedules/programs/configurations; "
 TEXT = {
+    "C01": {
+        "level_text": "Seeded exploration of creation forests (<= 24 named/unnamed ULTs and tasklets created from the primary ULT, ULTs, tasklets and external threads with create, create_on_xstream, create_many, create_to and revive; bodies with yields, mutex sections, child creation and joins) over randomised stream counts, pool kinds, predefined schedulers, shared/private pools and stacked schedulers (ABT_pool_add_sched); exactly-once counters, function/argument identity and unit kind are checked inside every unit and at every join/free, ABT_xstream_join of the only stream serving a pool, and ABT_finalize; bounded liveness catches dropped units.",
+        "level_note": COMMON_NOTE,
+        "technique": TECH + "exactly-once counters as run-time invariants + bounded-liveness oracle + allocation ledger, spurious wake-ups/early sleeps/stalls injected",
+    },
+    "C03": {
+        "level_text": "Seeded exploration of the join matrix: caller kind (primary ULT, ULT, tasklet, external thread) x target kind (ULT/tasklet) x target behaviour (returns, ABT_self_exit/ABT_thread_exit, cancelled, blocks first) x join issued early/mid/late x join+free, free, join_many, free_many; at every return the target's completion flag and last write are checked, ABT_thread_get_state must be TERMINATED, free must NULL the handle, the target must not run afterwards; the ledger catches double release and bounded liveness catches a joiner that is never released.",
+        "level_note": COMMON_NOTE,
+        "technique": TECH + "completion/visibility oracle at join return + state check + bounded-liveness oracle, spurious futex wake-ups and targeted delays at the join handshake",
+    },
+    "C05": {
+        "level_text": "Seeded exploration of waiters (ULT, external thread) and signallers issuing signal/broadcast inside and outside the mutex; a credit-interval reference model updated under the mutex (waiters registered and not returned, waiters that a later in-mutex signaller must find queued, bounds on wake-ups issued) decides: no wait returns without a wake-up that can have been issued (no spurious/duplicated wake-up), every wake-up that was certainly owed arrives before any flushing broadcast (no lost signal), and the returner holds the mutex.",
+        "level_note": COMMON_NOTE,
+        "technique": TECH + "credit-interval reference model checked at every wait return and at a quiescent point + mutex holder model + bounded-liveness oracle; spurious futex wake-ups must not surface",
+    },
+    "C19": {
+        "level_text": "Seeded exploration under a virtual clock: timed and untimed cond waiters (ULT and external) with deadlines in the past, a few quanta ahead and never, signals/broadcasts inside and outside the mutex, forward clock jumps, spurious wake-ups and early nanosleep returns; TIMEDOUT is accepted only when the virtual clock has reached the deadline, the credit-interval model of C05 (timed waiters stop counting as certainly queued once their deadline has passed) catches a timed-out waiter that consumed a signal or left the queue damaged (lost wake-up, crash or assertion in the runtime); blocking pool pops (pop_wait/pop_timedwait on FIFO, FIFO_WAIT, RANDWS) must return every unit pushed while they wait exactly once and return empty-handed in bounded virtual time.",
+        "level_note": COMMON_NOTE,
+        "technique": TECH + "virtual-clock deadline oracle + credit-interval reference model + exactly-once token accounting for blocking pops, clock jumps/spurious wake-ups/early sleeps injected",
+    },
     "C04": {
         "level_text": "Seeded exploration: 2..6 callers (ULT, tasklet, external thread) issue lock/lock_low/lock_high/spinlock/trylock/unlock(_se/_de) on dynamic, static, plain and recursive mutexes over randomised stream/pool/scheduler topologies; a harness-side holder model checks exclusion and recursion at every acquisition and inside critical sections, failed trylocks must overlap a lock..unlock interval, and liveness (deadlock / no progress in the fair phase) catches lost wake-ups.",
         "level_note": COMMON_NOTE,
